@@ -48,12 +48,19 @@ def in_alphabet(c, names):
     return z3.Or(*[c == ALPHABET[n] for n in names])
 
 
-def tagged_line(exe, name, length, nonempty, gw):
-    return VAgg("TaggedLine", None, [VOpaque("Vec<TaggedLineElement<T>>", name + ".v"), length, nonempty, gw], None)
+def tagged_line(exe, name, length, nonempty, gw, content=None):
+    """content: None = the elements are not tracked (opaque); a list = tracked sequence of element tokens."""
+    v = VVec(list(content)) if content is not None else VOpaque("Vec<TaggedLineElement<T>>", name + ".v")
+    return VAgg("TaggedLine", None, [v, length, nonempty, gw], None)
 
 
-def lines_model(count, maxlen):
-    return VAgg("LinesModel", None, [count, maxlen])
+def _app(v, *items):
+    """append element tokens when the line's content is tracked"""
+    return VVec(list(v.elems) + list(items)) if isinstance(v, VVec) else v
+
+
+def lines_model(count, maxlen, content=None):
+    return VAgg("LinesModel", None, [count, maxlen] + ([content] if content is not None else []))
 
 
 def str_model(width, nbytes):
@@ -85,11 +92,13 @@ class WrapModel:
         e = self.exe
         vals = {
             "width": self.width,
-            "text": lines_model(self.text_count, self.text_maxlen),
-            "line": tagged_line(e, "line", self.line_len, self.line_nonempty, self.line_len),
+            "text": lines_model(self.text_count, self.text_maxlen, VVec([]) if getattr(self, "track", False) else None),
+            "line": tagged_line(e, "line", self.line_len, self.line_nonempty, self.line_len,
+                                content=[VOpaque("tok", "LINE0")] if getattr(self, "track", False) else None),
             "spacetag": (VAgg("Option::Some", "Some", [VOpaque("T", "spacetag0")]) if spacetag_some
                          else VAgg("Option::None", "None", [])),
-            "word": tagged_line(e, "word", e.fresh("usize", "word_len_field"), self.word_nonempty, self.wordlen),
+            "word": tagged_line(e, "word", e.fresh("usize", "word_len_field"), self.word_nonempty, self.wordlen,
+                                content=[VOpaque("tok", "WORD0")] if getattr(self, "track", False) else None),
             "wordlen": self.wordlen,
             "wslen": self.wslen,
             "pre_wrapped": self.pre_wrapped,
@@ -134,7 +143,8 @@ class WrapModel:
         def summ(exe_, st, f, bb, callee, args, dest_ty):
             c = re.sub(r"\s+", " ", callee.strip())
             if re.search(r"TaggedLine::<.*>::new$", c):
-                return [(st, tagged_line(exe, exe.fresh_name("newline"), VInt(U(0), 64, False), VBool(z3.BoolVal(False)), VInt(U(0), 64, False)))]
+                return [(st, tagged_line(exe, exe.fresh_name("newline"), VInt(U(0), 64, False), VBool(z3.BoolVal(False)), VInt(U(0), 64, False),
+                                         content=[] if getattr(model, "track", False) else None))]
             if re.search(r"TaggedLine::<.*>::is_empty$", c):
                 l = exe.deref(st, args[0])
                 return [(st, VBool(z3.Not(l.fields[2].e)))]
@@ -144,11 +154,11 @@ class WrapModel:
             if re.search(r"TaggedLine::<.*>::push_char$", c):
                 ch = args[1]
                 w = z3.If(char_is_control(ch.e), U(0), char_width(ch.e))
-                upd_line(st, args[0], lambda v, ln, ne, gw: (v, VInt(ln.e + w, 64, False), VBool(z3.BoolVal(True)), VInt(gw.e + w, 64, False)))
+                upd_line(st, args[0], lambda v, ln, ne, gw: (_app(v, ch), VInt(ln.e + w, 64, False), VBool(z3.BoolVal(True)), VInt(gw.e + w, 64, False)))
                 return [(st, VUnit())]
             if re.search(r"TaggedLine::<.*>::push_ws$", c):
                 n = args[1]
-                upd_line(st, args[0], lambda v, ln, ne, gw: (v, VInt(ln.e + n.e, 64, False), VBool(z3.Or(ne.e, n.e != 0)), VInt(gw.e + n.e, 64, False)))
+                upd_line(st, args[0], lambda v, ln, ne, gw: (_app(v, VAgg("ws", None, [n])), VInt(ln.e + n.e, 64, False), VBool(z3.Or(ne.e, n.e != 0)), VInt(gw.e + n.e, 64, False)))
                 return [(st, VUnit())]
             if re.search(r"TaggedLine::<.*>::push$", c):
                 el = args[1]
@@ -158,15 +168,17 @@ class WrapModel:
                     if not (isinstance(s, VAgg) and s.path == "StrModel"):
                         raise PathEnd("push of a string that is not a model")
                     w, nb = s.fields
-                    upd_line(st, args[0], lambda v, ln, ne, gw: (v, VInt(ln.e + z3.If(nb.e != 0, w.e, U(0)), 64, False),
+                    upd_line(st, args[0], lambda v, ln, ne, gw: (_app(v, s), VInt(ln.e + z3.If(nb.e != 0, w.e, U(0)), 64, False),
                                                                  VBool(z3.Or(ne.e, nb.e != 0)), VInt(gw.e + z3.If(nb.e != 0, w.e, U(0)), 64, False)))
                     return [(st, VUnit())]
+                upd_line(st, args[0], lambda v, ln, ne, gw: (_app(v, el), ln, ne, gw))
                 return [(st, VUnit())]  # fragment marker: no width, not text
             if re.search(r"TaggedLine::<.*>::consume$", c):
                 src = exe.deref(st, args[1])
                 sv, sl, sne, sgw = src.fields
-                upd_line(st, args[0], lambda v, ln, ne, gw: (v, VInt(ln.e + sgw.e, 64, False), VBool(z3.Or(ne.e, sne.e)), VInt(gw.e + sgw.e, 64, False)))
-                exe.write_ref(st, args[1], [], VAgg("TaggedLine", None, [sv, sl, VBool(z3.BoolVal(False)), VInt(U(0), 64, False)]), None)
+                upd_line(st, args[0], lambda v, ln, ne, gw: (_app(v, *(sv.elems if isinstance(sv, VVec) else ())), VInt(ln.e + sgw.e, 64, False),
+                                                             VBool(z3.Or(ne.e, sne.e)), VInt(gw.e + sgw.e, 64, False)))
+                exe.write_ref(st, args[1], [], VAgg("TaggedLine", None, [VVec([]) if isinstance(sv, VVec) else sv, sl, VBool(z3.BoolVal(False)), VInt(U(0), 64, False)]), None)
                 return [(st, VUnit())]
             if re.search(r"std::str::<impl str>::repeat$", c):
                 n = args[1]
@@ -180,8 +192,12 @@ class WrapModel:
                 t = exe.deref(st, args[0])
                 if isinstance(t, VAgg) and t.path == "LinesModel":
                     ln = args[1].fields[1]
-                    cnt, mx = t.fields
-                    exe.write_ref(st, args[0], [], lines_model(VInt(cnt.e + 1, 64, False), VInt(z3.If(z3.UGT(ln.e, mx.e), ln.e, mx.e), 64, False)), None)
+                    cnt, mx = t.fields[0], t.fields[1]
+                    cont = None
+                    if len(t.fields) == 3:
+                        lv = args[1].fields[0]
+                        cont = VVec(list(t.fields[2].elems) + (list(lv.elems) if isinstance(lv, VVec) else [VOpaque("line", "untracked")]))
+                    exe.write_ref(st, args[0], [], lines_model(VInt(cnt.e + 1, 64, False), VInt(z3.If(z3.UGT(ln.e, mx.e), ln.e, mx.e), 64, False), cont), None)
                     return [(st, VUnit())]
             if re.search(r"Option::<.*>::take$", c):
                 cur = exe.deref(st, args[0])
@@ -241,10 +257,13 @@ class WrapModel:
                 allow = fields[names.index("allow_overflow")]
                 width = fields[names.index("width")]
                 ok.pc += [z3.Or(allow.e, z3.ULE(newlen.e, width.e)), z3.ULE(extra.e, U(1 << 20)), z3.ULE(newlen.e, U(1 << 21))]
-                fields[names.index("line")] = VAgg("TaggedLine", None, [line.fields[0], newlen, VBool(z3.Or(line.fields[2].e, word.fields[2].e)), newlen])
-                fields[names.index("word")] = VAgg("TaggedLine", None, [word.fields[0], VInt(U(0), 64, False), VBool(z3.BoolVal(False)), VInt(U(0), 64, False)])
-                cnt, mx = text.fields
-                fields[names.index("text")] = lines_model(VInt(cnt.e + extra.e, 64, False), mx)
+                lv, wv = line.fields[0], word.fields[0]
+                # content (when tracked): the word's elements follow the line's, in order, somewhere on the emitted lines / the new line
+                nlv = _app(lv, *(wv.elems if isinstance(wv, VVec) else ())) if isinstance(lv, VVec) else lv
+                fields[names.index("line")] = VAgg("TaggedLine", None, [nlv, newlen, VBool(z3.Or(line.fields[2].e, word.fields[2].e)), newlen])
+                fields[names.index("word")] = VAgg("TaggedLine", None, [VVec([]) if isinstance(wv, VVec) else wv, VInt(U(0), 64, False), VBool(z3.BoolVal(False)), VInt(U(0), 64, False)])
+                cnt, mx = text.fields[0], text.fields[1]
+                fields[names.index("text")] = lines_model(VInt(cnt.e + extra.e, 64, False), mx, text.fields[2] if len(text.fields) == 3 else None)
                 exe.write_ref(ok, args[0], [], VAgg("WrappedBlock", None, fields, names), None)
                 outs.append((ok, VAgg("Result::Ok", "Ok", [VUnit()])))
                 err = st.clone()
